@@ -25,3 +25,14 @@ package udp
 //@            && implies(old(e.rcvList.tail) == nil, e.rcvList.head == e.rcvList.tail)
 //@            && implies(old(e.rcvList.tail) != nil, e.rcvList.head == old(e.rcvList.head) && old(e.rcvList.tail).udpPacketEntry.next == e.rcvList.tail))
 //@   modifies e.rcvList.head, e.rcvList.tail, e.rcvBufSize, structfamily(udpPacket), structfamily(tcpip.StatCounter), elemfamily(buffer.View)
+
+// Outbound datagram: one packet whose length field is header + payload (C06, C11). The
+// length must be representable in the 16-bit field.
+//@ func sendUDP props C06 C11
+//@   requires r != nil && 0 <= data.size && data.size <= 0xffff - header.UDPMinimumSize && data.size == vsum(data.views)
+//@   modifies everything()
+
+// Write emits the payload as one datagram or fails.
+//@ func (*endpoint).Write props C06 C11
+//@   requires e != nil && e.stack != nil && p != nil
+//@   modifies everything()
